@@ -5,6 +5,7 @@ from props.c09 import NETS
 from props.c10 import _addr
 
 PID = "C12"
+TIES = ['locking_scripts']   # source-tie files coq/Properties/Tie_<f>.v that belong to this property
 THEOREMS = ['C12_templates', 'C12_helpers_agree']
 TECHNIQUE = "Coq proof (byte-exact standard templates via the proved assembler; helper output = locking script of the address made from the same script) + extracted-model correspondence with hashlib / pycryptodome as oracle, incl. multi-step histories on one object"
 RULE = ("random and all-zero 20/32-byte hashes and keys for the five address types on four networks; redeem/witness scripts from the C02 generator "
@@ -106,3 +107,8 @@ def oracle(d):
         f = lambda b: "a914" + h160(b).hex() + "87,0020" + hashlib.sha256(b).hexdigest()
         return f(b1) + "|" + f(b2) + "|" + f(b2)
     return None
+
+
+# source tie (DESIGN 13.8)
+from common import with_ties
+LEVEL_TEXT, LEVEL_NOTE, TECHNIQUE = with_ties(TIES, LEVEL_TEXT, LEVEL_NOTE, TECHNIQUE)
